@@ -472,7 +472,13 @@ VariablesStack::findEntry(
             {
                 if(theEntry.getName()->equals(qname))
                 {
-                    theEntry.activate();
+                    // The entry is not activated here: it belongs to the caller
+                    // (xsl:apply-templates pushes its parameters once for all
+                    // the templates it instantiates), and an activated entry
+                    // was visible as a variable to a later template that does
+                    // not declare the parameter, hiding a global variable of
+                    // the same name.  xsl:param binds the value it finds in
+                    // its own frame instead (ElemParam).
 
                     theEntryIndex = i;
 
